@@ -51,6 +51,43 @@ TYPES = {
     "text_cls": lambda: sa.Text,
 }
 TYPE_KEYS_CLASS = ["int_cls", "dt_cls", "text_cls"]
+
+
+class _DecEnum(sa.TypeDecorator):
+    """a TypeDecorator whose impl owns a CHECK constraint"""
+
+    impl = sa.Enum("p", "q", name="en3", native_enum=False, create_constraint=True)
+    cache_ok = True
+
+
+class _DecBool(sa.TypeDecorator):
+    impl = sa.Boolean(create_constraint=True, name="ck_b3")
+    cache_ok = True
+
+
+def _other(dialect):
+    return "mysql" if dialect == "oracle" else "oracle"
+
+
+# constraint-owning schema types reached indirectly: as the impl of a TypeDecorator, or as the variant of a plain type
+# for the dialect under test ("here") resp. -- control: no constraint may appear -- for another dialect ("other").
+# These take the dialect name.
+TYPES_D = {
+    "dec_enum": lambda d: _DecEnum(),
+    "dec_bool": lambda d: _DecBool(),
+    "var_enum_here": lambda d: sa.String(10).with_variant(
+        sa.Enum("u", "v", name="en4", native_enum=False, create_constraint=True), d),
+    "var_bool_here": lambda d: sa.Integer().with_variant(sa.Boolean(create_constraint=True, name="ck_b4"), d),
+    "var_enum_other": lambda d: sa.String(10).with_variant(
+        sa.Enum("u", "v", name="en5", native_enum=False, create_constraint=True), _other(d)),
+}
+TYPE_KEYS_CK_WRAPPED = ["dec_enum", "dec_bool", "var_enum_here", "var_bool_here", "var_enum_other"]
+
+
+def make_type(key, dialect):
+    if key in TYPES_D:
+        return TYPES_D[key](dialect)
+    return TYPES[key]()
 TYPE_KEYS_COMMON = ["int", "str20", "text", "dt", "numeric", "bool"]
 TYPE_KEYS_CK = ["bool_ck", "bool_ck2", "bool_anon", "enum_ck", "enum_nn"]
 
@@ -127,13 +164,13 @@ def type_token(dialect, key):
     ck = (dialect, key)
     if ck not in _TY_CACHE:
         d = _sa_dialect(dialect)
-        raw = TYPES[key]()
+        raw = make_type(key, dialect)
         t = sqltypes.to_instance(raw)
         name = d.type_compiler_instance.process(t) if hasattr(d, "type_compiler_instance") else d.type_compiler.process(t)
         # SQLAlchemy's schema-type rule: which CHECK constraint the type attaches to a column and
         # whether its create rule fires for this dialect (same test as toimpl._count_constraint)
         compiler = d.statement_compiler(d, None)
-        tbl = sa.Table("t1", sa.MetaData(), sa.Column("c1", TYPES[key]()))
+        tbl = sa.Table("t1", sa.MetaData(), sa.Column("c1", make_type(key, dialect)))
         cks = [
             c
             for c in tbl.constraints
@@ -206,13 +243,13 @@ def schema_text(schema):
     return schema
 
 
-def to_kwargs(req):
+def to_kwargs(req, dialect=None):
     kw = {}
     if req.get("schema") is not None:
         sch = req["schema"]
         kw["schema"] = quoted_name(sch[3:], quote=False) if sch.startswith("qn:") else sch
     if req.get("type") is not None:
-        kw["type_"] = TYPES[req["type"]]()
+        kw["type_"] = make_type(req["type"], dialect)
     if req.get("nullable") is not None:
         kw["nullable"] = req["nullable"]
     sd = req.get("server_default") or {"k": "unset"}
@@ -230,7 +267,7 @@ def to_kwargs(req):
     if req.get("autoinc") is not None:
         kw["autoincrement"] = req["autoinc"]
     if req.get("ex_type") is not None:
-        kw["existing_type"] = TYPES[req["ex_type"]]()
+        kw["existing_type"] = make_type(req["ex_type"], dialect)
     if req.get("ex_nullable") is not None:
         kw["existing_nullable"] = req["ex_nullable"]
     ed = req.get("ex_default") or {"k": "unset"}
@@ -257,7 +294,7 @@ def run_impl(dialect, req):
     with warnings.catch_warnings():
         warnings.simplefilter("ignore")
         try:
-            op.alter_column(req["table"], req["column"], **to_kwargs(req))
+            op.alter_column(req["table"], req["column"], **to_kwargs(req, dialect))
         except Exception as e:  # every exception class is data here
             err = type(e).__name__
             msg = str(e)[:160]
